@@ -571,9 +571,26 @@ class _ScandirCtx:
 def make_os_shim(fs, real_os):
     """Stands in for the `os` module inside the modules under simulation."""
 
+    pure_path = {"join", "dirname", "basename", "split", "splitext", "splitdrive", "normpath", "normcase", "isabs",
+                 "commonpath", "commonprefix", "sep", "altsep", "extsep", "pardir", "curdir", "pathsep", "defpath",
+                 "devnull", "expanduser", "expandvars", "supports_unicode_filenames"}
+
     class _PathShim:
         def __getattr__(self, name):
-            return getattr(posixpath, name)
+            if name in pure_path:
+                return getattr(posixpath, name)
+            # anything else would look at the real file system
+            raise SimfsUnsupported(f"os.path.{name}")
+
+        @staticmethod
+        def relpath(p, start=None):
+            return posixpath.relpath(fs.abspath(p), fs.abspath(start if start is not None else "."))
+
+        @staticmethod
+        def samefile(a, b):
+            if not fs.exists(a) or not fs.exists(b):
+                raise FileNotFoundError(errno.ENOENT, "No such file or directory", str(a))
+            return fs.abspath(a) == fs.abspath(b)
 
         @staticmethod
         def exists(p):
@@ -607,15 +624,46 @@ def make_os_shim(fs, real_os):
         def lexists(p):
             return fs.exists(p)
 
+    pure_os = {"fsdecode", "fsencode", "PathLike", "error", "environ", "getenv", "name", "sep", "altsep", "curdir",
+               "pardir", "extsep", "pathsep", "linesep", "devnull", "defpath", "strerror", "cpu_count", "urandom",
+               "getuid", "geteuid", "getgid", "getegid", "getlogin", "uname", "umask", "get_terminal_size", "times",
+               "getppid", "putenv", "unsetenv", "get_exec_path", "sched_getaffinity", "supports_fd",
+               "supports_dir_fd", "supports_follow_symlinks", "supports_effective_ids", "supports_bytes_environ"}
+
     class _OsShim:
         path = _PathShim()
         sep = "/"
         linesep = "\n"
 
         def __getattr__(self, name):
-            if name in ("open", "fdopen", "write", "read", "stat", "utime", "chmod", "link", "symlink", "truncate"):
-                raise SimfsUnsupported(f"os.{name}")
-            return getattr(real_os, name)
+            # constants and functions that never look at the file system; everything else that
+            # is not modelled below is a harness limitation (it must not reach the real disk)
+            if name in pure_os or name.isupper():
+                return getattr(real_os, name)
+            raise SimfsUnsupported(f"os.{name}")
+
+        @staticmethod
+        def getpid():
+            return 4242  # part of many temporary file names: the same in every process
+
+        @staticmethod
+        def access(path, mode, **_k):  # pylint: disable=unused-argument
+            # no permission model (as for root on a real disk): whatever exists is accessible
+            return fs.exists(path)
+
+        @staticmethod
+        def fdopen(fd, *a, **k):  # pylint: disable=unused-argument
+            f = fs.fds.get(fd)
+            if f is None:
+                raise OSError(errno.EBADF, "Bad file descriptor")
+            return f
+
+        @staticmethod
+        def close(fd):
+            f = fs.fds.pop(fd, None)
+            if f is None:
+                raise OSError(errno.EBADF, "Bad file descriptor")
+            f.close()
 
         @staticmethod
         def fsync(fd):
@@ -666,6 +714,128 @@ def make_os_shim(fs, real_os):
     return _OsShim()
 
 
+def make_shutil_shim(fs):
+    class _ShutilShim:
+        def __getattr__(self, name):
+            raise SimfsUnsupported(f"shutil.{name}")
+
+        @staticmethod
+        def _need(*paths):
+            for p in paths:
+                if not fs.exists(p):
+                    raise FileNotFoundError(errno.ENOENT, "No such file or directory", str(p))
+
+        def copymode(self, src, dst, **_k):
+            self._need(src, dst)  # no permission model: nothing to copy
+
+        copystat = copymode
+
+        def copyfile(self, src, dst, **_k):
+            with fs.open(src, "r") as f:
+                data = f.read()
+            with fs.open(dst, "w") as g:
+                g.write(data)
+            return dst
+
+        def copy(self, src, dst, **_k):
+            if fs.is_dir(dst):
+                dst = posixpath.join(str(dst), posixpath.basename(str(src)))
+            return self.copyfile(src, dst)
+
+        copy2 = copy
+
+        @staticmethod
+        def move(src, dst, **_k):
+            fs.rename(src, dst)
+            return dst
+
+    return _ShutilShim()
+
+
+def make_tempfile_shim(fs):
+    class _NamedTemp:
+        """What NamedTemporaryFile returns: the file plus .name and delete-on-close."""
+
+        def __init__(self, f, name, delete):
+            self.__dict__.update(file=f, name=name, delete=delete)
+
+        def __getattr__(self, attr):
+            return getattr(self.file, attr)
+
+        def __iter__(self):
+            return iter(self.file)
+
+        def close(self):
+            self.file.close()
+            if self.delete and fs.exists(self.name):
+                fs.remove(self.name)
+
+        def __enter__(self):
+            return self
+
+        def __exit__(self, *exc):
+            self.close()
+            return False
+
+    class _TempfileShim:
+        def __getattr__(self, name):
+            raise SimfsUnsupported(f"tempfile.{name}")
+
+        @staticmethod
+        def gettempdir():
+            if not fs.is_dir("/tmp"):
+                fs.mkdir("/tmp", parents=True, exist_ok=True)
+            return "/tmp"
+
+        def _unique(self, suffix, prefix, dir):  # pylint: disable=redefined-builtin
+            base = str(dir) if dir is not None else self.gettempdir()
+            fs.tmp_counter = getattr(fs, "tmp_counter", 0) + 1
+            return posixpath.join(fs.abspath(base), f"{prefix if prefix is not None else 'tmp'}{fs.tmp_counter:08x}{suffix or ''}")
+
+        def mkstemp(self, suffix=None, prefix=None, dir=None, text=False):  # pylint: disable=redefined-builtin,unused-argument
+            path = self._unique(suffix, prefix, dir)
+            f = fs.open(path, "x+")
+            return f.fileno(), path
+
+        def NamedTemporaryFile(self, mode="w+b", buffering=-1, encoding=None, newline=None, suffix=None, prefix=None,  # noqa: N802  pylint: disable=invalid-name,unused-argument,too-many-arguments
+                               dir=None, delete=True, **_k):  # pylint: disable=redefined-builtin
+            path = self._unique(suffix, prefix, dir)
+            m = mode.replace("w", "x", 1) if "w" in mode else mode
+            return _NamedTemp(fs.open(path, m), path, delete)
+
+        def mkdtemp(self, suffix=None, prefix=None, dir=None):  # pylint: disable=redefined-builtin
+            path = self._unique(suffix, prefix, dir)
+            fs.mkdir(path)
+            return path
+
+    return _TempfileShim()
+
+
+class _DeterministicNames:
+    """Stand-ins for what programs put into temporary file names (uuid, time, random): the
+    values come from a counter kept on the simulated file system, so that the I/O trace of a
+    history is the same in every process."""
+
+    def __init__(self, fs, real, kind):
+        self.__dict__.update(_fs=fs, _real=real, _kind=kind)
+
+    def _next(self):
+        self._fs.name_counter = getattr(self._fs, "name_counter", 0) + 1
+        return self._fs.name_counter
+
+    def __getattr__(self, name):
+        real = getattr(self._real, name)
+        if self._kind == "uuid" and name in ("uuid1", "uuid4"):
+            return lambda *a, **k: self._real.UUID(int=(0x5EED << 96) + self._next())
+        if self._kind == "time" and name in ("time", "monotonic", "perf_counter"):
+            return lambda: 1.7e9 + self._next()
+        if self._kind == "time" and name in ("time_ns", "monotonic_ns", "perf_counter_ns"):
+            return lambda: 1_700_000_000_000_000_000 + self._next()
+        if self._kind == "time" and name == "sleep":
+            return lambda _s: None
+        return real
+
+
 class _Tripwire:
     """Stands in for a file-system related module or function this model does not
     cover: using it is reported as a harness limitation, never as a violation."""
@@ -684,7 +854,8 @@ def install_seams(mod, fs):
     """Put the simulated file system behind every file-system name in the globals
     of `mod`: builtin open, pathlib.Path, os (and things imported from it).  Names
     bound to modules / functions that are not modelled (shutil, tempfile, glob, io,
-    os-level functions imported by name) become tripwires.  Returns what is needed
+    os-level functions imported by name) become tripwires; shutil and tempfile are modelled in
+    part, uuid and time (what temporary names are made of) become deterministic.  Returns what is needed
     to undo it."""
     import builtins  # pylint: disable=import-outside-toplevel
     import glob as _glob  # pylint: disable=import-outside-toplevel
@@ -693,6 +864,8 @@ def install_seams(mod, fs):
     import pathlib  # pylint: disable=import-outside-toplevel
     import shutil  # pylint: disable=import-outside-toplevel
     import tempfile  # pylint: disable=import-outside-toplevel
+    import time as _time  # pylint: disable=import-outside-toplevel
+    import uuid as _uuid  # pylint: disable=import-outside-toplevel
 
     missing = object()
     saved = {}
@@ -713,13 +886,21 @@ def install_seams(mod, fs):
             put(name, os_shim.path)
         elif val is pathlib.Path or val is pathlib.PosixPath or val is pathlib.PurePath:
             put(name, path_cls)
-        elif val in (shutil, tempfile, _glob, _io, pathlib):
+        elif val is shutil:
+            put(name, make_shutil_shim(fs))
+        elif val is tempfile:
+            put(name, make_tempfile_shim(fs))
+        elif val is _uuid:
+            put(name, _DeterministicNames(fs, _uuid, "uuid"))
+        elif val is _time:
+            put(name, _DeterministicNames(fs, _time, "time"))
+        elif val in (_glob, _io, pathlib):
             put(name, _Tripwire(getattr(val, "__name__", name)))
         elif val is builtins.open or val is _io.open:
             put(name, fs.open)
         elif callable(val) and getattr(val, "__module__", None) in ("posix", "nt", "os", "shutil", "tempfile", "glob", "genericpath", "posixpath"):
             fn = getattr(os_shim, getattr(val, "__name__", ""), None) if getattr(val, "__module__", None) in ("posix", "nt", "os") else None
-            put(name, fn if callable(fn) and getattr(val, "__name__", "") in ("replace", "rename", "remove", "unlink", "makedirs", "mkdir", "listdir", "scandir", "getcwd", "chdir")
+            put(name, fn if callable(fn) and getattr(val, "__name__", "") in ("replace", "rename", "remove", "unlink", "makedirs", "mkdir", "listdir", "scandir", "getcwd", "chdir", "fsync", "fdatasync", "access", "getpid", "fdopen", "close", "fspath")
                 else _Tripwire(f"{val.__module__}.{getattr(val, '__name__', name)}"))
     return saved, missing
 
